@@ -283,6 +283,10 @@ def run(ctx):
     ctx.clause("C15.3 match_copy kernels: block copies no wider than the guarded distance")
     from ..rules import overlap
     overlap.run(ctx, decoders=False)
+    ctx.clause("C15.4 scalars leave a vector at the width of its lanes (no 32-bit extraction from 64-bit lanes)")
+    from ..rules import lanes
+    nlan = lanes.check(ctx, P.funcs_under("src/simd/"))
+    ctx.floor("C15 lane extractions with a lane-typed operand", nlan, 3)
     init = P.inlined(P.fn("carquet_simd_dispatch_init", DP), 2)    # helpers that install a group of slots are expanded
     rec = P.record("carquet_simd_dispatch_t") if "carquet_simd_dispatch_t" in P.records else None
     if rec is None:
